@@ -75,7 +75,23 @@ var fullSyms = []symbol{
 	{"Toggle", opToggle, argNone, ""},
 }
 
+// name segments that contain the separator: at the start, at the end, alone, inside.
+// The reference is the same verbatim dot-join of the non-empty segments.
+var sepNameSyms = []symbol{
+	{"Named(.a)", opNamed, argNone, ".a"},
+	{"Named(a.)", opNamed, argNone, "a."},
+	{"Named(.)", opNamed, argNone, "."},
+	{"Named(a.b)", opNamed, argNone, "a.b"},
+}
+
+func isSepName(s symbol) bool { return s.op == opNamed && strings.Contains(s.nm, ".") }
+
 func symByName(n string) (symbol, bool) {
+	for _, s := range sepNameSyms {
+		if s.name == n {
+			return s, true
+		}
+	}
 	for _, s := range fullSyms {
 		if s.name == n {
 			return s, true
